@@ -2,6 +2,7 @@ package props
 
 import (
 	"fmt"
+	"math"
 	"math/big"
 	"sort"
 	"time"
@@ -24,7 +25,9 @@ func init() {
 }
 
 var c17Standard = []float64{8000, 11025, 16000, 22050, 32000, 44100, 48000, 88200, 96000, 176400, 192000, 352800, 384000, 2822400, 5644800}
-var c17Fractional = []float64{44100.5, 1e6 / 3, 29.97, 0.5, 1.0 / 3, 23.976, 59.94, 999999.999, 48000 * 1.001, 48000 / 1.001, 12345.6789, 2.5e5 + 0.125}
+var c17Fractional = []float64{44100.5, 1e6 / 3, 29.97, 0.5, 1.0 / 3, 23.976, 59.94, 999999.999, 48000 * 1.001, 48000 / 1.001, 12345.6789, 2.5e5 + 0.125,
+	// short decimals (their float64 value lies just above or just below the decimal)
+	0.1, 0.2, 0.3, 0.7, 1.1, 2.2, 3.3, 7.7, 44100.1, 44100.9, 48000.3, 96000.7, 999999.9, 0.01, 100.01}
 
 var (
 	ratNano = big.NewRat(1_000_000_000, 1)
@@ -128,6 +131,17 @@ func runC17(c *core.Ctx) {
 		}
 		for i := int64(0); i < dense/2 && day-i >= 0; i++ {
 			ns = append(ns, day-i)
+		}
+		// counts next to a whole number of seconds (n/f close to an integer)
+		for _, k := range []int64{1, 2, 3, 5, 7, 10, 11, 20, 30, 50, 60, 100, 600, 1000, 3600, 36000, 86400} {
+			x := float64(k) * rt.f
+			for _, n := range []int64{int64(math.Floor(x)), int64(math.Ceil(x)), int64(math.Round(x))} {
+				for dd := int64(-1); dd <= 1; dd++ {
+					if n+dd >= 0 && n+dd <= day {
+						ns = append(ns, n+dd)
+					}
+				}
+			}
 		}
 		if rt.integer {
 			fi := int64(rt.f)
